@@ -101,6 +101,52 @@ def step (s : St) (kind : String) (args impl : List String) : Option (St × Step
 
 def machine : Machine := { σ := St, name := "tagrepl", init := parseCfg, step := step }
 
+/-! origin side: replicateToRemote on the real origin server -/
+
+structure OSt where
+  o : Origin := {}
+  up : Bool := true
+  prevCache : List String := []     -- impl: blobs cached before this op
+
+def blob? (t : String) : Option Nat :=
+  match t.toList with
+  | 'b' :: ds => (String.ofList ds).toNat?
+  | _ => none
+
+def ssort (xs : List String) : List String := (xs.toArray.qsort (· < ·)).toList
+
+def odump (o : Origin) : List String :=
+  ["c=" ++ listTok (ssort (o.cache.map fun d => s!"b{d}")), "r=" ++ listTok (ssort (o.remote.map fun d => s!"b{d}"))]
+
+def ostep (s : OSt) (kind : String) (args impl : List String) : Option (OSt × StepOut) :=
+  if kind ≠ "op" then none else
+  let cachedNow := list? ((kv? impl "c").getD "-")
+  let fin (o : Origin) (up : Bool) (obs : List String) (br : String) (pf : List String := []) : Option (OSt × StepOut) :=
+    some ({ o, up, prevCache := cachedNow }, { obs := obs ++ odump o, branch := br, propfails := pf })
+  match args with
+  | ["fetch", bt] => do
+    let b ← blob? bt
+    fin { s.o with cache := if b ∈ s.o.cache then s.o.cache else s.o.cache ++ [b] } s.up ["ok"] "o.fetch"
+  | ["seed", bt] => do
+    let b ← blob? bt
+    fin { s.o with backend := if b ∈ s.o.backend then s.o.backend else s.o.backend ++ [b] } s.up ["ok"] "o.seed"
+  | ["rdown"] => fin s.o false ["ok"] "o.rdown"
+  | ["rup"] => fin s.o true ["ok"] "o.rup"
+  | ["rep", bt] => do
+    let b ← blob? bt
+    let (o', r) := replicateToRemote s.o b s.up
+    let res := impl.headD ""
+    let rem := list? ((kv? impl "r").getD "-")
+    let pf := (if res = "ok" ∧ bt ∉ rem then
+        [s!"side=impl key=replicate-200-without-remote-upload the origin answered 200 to a replicate request for {bt} and the remote cluster does not hold it: {rem}"] else []) ++
+      (if res = "ok" ∧ bt ∉ s.prevCache then
+        [s!"side=impl key=replicate-200-for-uncached-blob the origin answered 200 to a replicate request for {bt}, which it did not have"] else [])
+    fin o' s.up [match r with | .ok => "ok" | .accepted => "202" | .client => "404" | _ => "err"]
+      (match r with | .ok => "o.rep.ok" | .accepted => "o.rep.202" | .client => "o.rep.404" | _ => "o.rep.remote-down") pf
+  | _ => none
+
+def omachine : Machine := { σ := OSt, name := "originrep", init := fun _ => some {}, step := ostep }
+
 end C33
 
-def main (args : List String) : IO UInt32 := runMachines [C33.machine] args
+def main (args : List String) : IO UInt32 := runMachines [C33.machine, C33.omachine] args
